@@ -517,6 +517,8 @@ func runC02(args []string) int {
 	sb.WriteString("Definition mism_plonk_verifier_arith := Eval vm_compute in vmismatches 0 vcases.\nPrint mism_plonk_verifier_arith.\n")
 	writeFile(o.Out, "cases_C02.v", sb.String())
 	rep.CoqCases = len(coqCases) + len(vcases)
+	// every supported curve: each group element of a genuine proof replaced in memory
+	allCurvesPlonk(o, rep)
 	rep.Write(o.Out)
 	return 0
 }
